@@ -458,10 +458,15 @@ func C11(run *Run) {
 			iterCacheConformance(run)
 			return
 		}
+		if replayKind(run.Replay) == "checkcache" {
+			checkCacheConformance(run)
+			return
+		}
 		replayCore(run)
 		return
 	}
-	iterCacheConformance(run) // the iterator cache and its invalidation markers as a sequential object (IterCache*.tla)
+	iterCacheConformance(run)  // the iterator cache and its invalidation markers as a sequential object (IterCache*.tla)
+	checkCacheConformance(run) // the check query cache under a scripted controller, against CheckCache's own actions
 	r := rand.New(rand.NewSource(run.Seed))
 	tr := &HookTracer{}
 	verifhook.InstallTracer(tr)
